@@ -17,7 +17,10 @@
                      which a second, overlapping session over some of the same transfers can be started
                      while the first one is still running
      fail_all        storeProposalsStatus(props, failed): PER PROPOSAL, a record that says executed is
-                     left alone (the other session may have succeeded in the meantime) *)
+                     left alone (the other session may have succeeded in the meantime)
+     nofault_keys /  store faults at the status reads / writes of a session end or of a retry release: a
+     written_keys    transfer whose guard read fails is left untouched (`continue`), a failing write is
+                     logged and the record stays as it was *)
 From Coq Require Import List NArith Bool.
 Import ListNotations.
 Local Open Scope N_scope.
@@ -117,14 +120,27 @@ Definition btc_execute (st : store) (d : list (key * fault)) : store * res :=
 
 Inductive dest := EVM | SUB | BTC.
 
+(* Every op that goes through the Bitcoin status store carries, per transfer it names, the store fault
+   met AT THAT TRANSFER (round 5): ReadErr = the status read made for it fails, WriteErr = the status
+   write made for it fails.  Where the code makes no such call for a transfer the fault has no effect. *)
 Inductive op :=
 | Deliver (d : list (key * fault))   (* EVM/Substrate: ReadErr = the executed-status query fails *)
-| ExecOk (b : list key)              (* a signing session over b ends with a successful submission /
-                                        EVM, Substrate: the destination now reports b executed *)
-| ExecFail (b : list key)            (* a signing session over b ends with a failed submission *)
+| ExecOk (b : list (key * fault))    (* a signing session over b ends with a successful submission /
+                                        EVM, Substrate: the destination now reports b executed.
+                                        Bitcoin: storeProposalsStatus(b, executed) - one write per
+                                        transfer, no read; a failing write is logged, the record stays *)
+| ExecFail (b : list (key * fault))  (* a signing session over b ends with a failed submission:
+                                        storeProposalsStatus(b, failed) - per transfer the "executed is
+                                        final" guard READS the record (read fails: the transfer is left
+                                        untouched), then a write unless it says executed *)
 | Restart
-| Release (b : list key).            (* a retry request finds b: whatever of it is recorded pending is
-                                        released to failed (Bitcoin; EVM/Substrate keep no such record) *)
+| Release (b : list (key * fault)).  (* a retry request finds b: whatever of it is recorded pending is
+                                        released to failed (Bitcoin; EVM/Substrate keep no such record);
+                                        retry.isExecuted: a read per deposit (read fails: skipped), a
+                                        write for a pending one (write fails: the record stays) *)
+
+(* the transfers without a fault, with their keys only *)
+Definition plain (b : list key) : list (key * fault) := map (fun k => (k, NoFault)) b.
 
 (* [st]: Bitcoin - the prop store; EVM/Substrate - the destination's executed flags (Done).
    [inflight]: transfers of the live signing sessions of this process, with multiplicity (after a
@@ -143,6 +159,14 @@ Definition deliver (ds : dest) (s : store) (d : list (key * fault)) : store * re
   | SUB => (s, sub_select (map (answer_of s) d))
   | BTC => btc_execute s d
   end.
+
+Definition keys_of (d : list (key * fault)) : list key := map fst d.
+(* the transfers of a session end / release whose store calls all go through: no fault at all, resp.
+   (an end with "executed" reads nothing) no failing write *)
+Definition is_nofault (e : key * fault) : bool := match snd e with NoFault => true | _ => false end.
+Definition not_write_fault (e : key * fault) : bool := match snd e with WriteErr => false | _ => true end.
+Definition nofault_keys (b : list (key * fault)) : list key := keys_of (filter is_nofault b).
+Definition written_keys (b : list (key * fault)) : list key := keys_of (filter not_write_fault b).
 
 Definition set_all (s : store) (b : list key) (v : pstatus) : store :=
   fold_left (fun a k => set_status a k v) b s.
@@ -166,22 +190,22 @@ Definition step (ds : dest) (s : state) (o : op) : state * res :=
       let '(s', r) := deliver ds (st s) d in (mkstate s' (inflight s ++ signed_of r), r)
   | ExecOk b =>
       match ds with
-      | BTC => if subset b (inflight s)
-               then (mkstate (set_all (st s) b Done) (remove_each b (inflight s)), Ok [])
+      | BTC => if subset (keys_of b) (inflight s)
+               then (mkstate (set_all (st s) (written_keys b) Done) (remove_each (keys_of b) (inflight s)), Ok [])
                else (s, Ok [])
-      | _ => (mkstate (set_all (st s) b Done) (remove_all b (inflight s)), Ok [])
+      | _ => (mkstate (set_all (st s) (keys_of b) Done) (remove_all (keys_of b) (inflight s)), Ok [])
       end
   | ExecFail b =>
       match ds with
-      | BTC => if subset b (inflight s)
-               then (mkstate (fail_all (st s) b) (remove_each b (inflight s)), Ok [])
+      | BTC => if subset (keys_of b) (inflight s)
+               then (mkstate (fail_all (st s) (nofault_keys b)) (remove_each (keys_of b) (inflight s)), Ok [])
                else (s, Ok [])
-      | _ => (mkstate (st s) (remove_all b (inflight s)), Ok [])
+      | _ => (mkstate (st s) (remove_all (keys_of b) (inflight s)), Ok [])
       end
   | Restart => (mkstate (st s) [], Ok [])
   | Release b =>
       match ds with
-      | BTC => (mkstate (release_all (st s) b) (inflight s), Ok [])
+      | BTC => (mkstate (release_all (st s) (nofault_keys b)) (inflight s), Ok [])
       | _ => (s, Ok [])
       end
   end.
@@ -203,7 +227,6 @@ Definition eligible (ds : dest) (v : pstatus) : bool :=
    handed to hashing (one per signing session), the status of every key of the universe afterwards *)
 Record obs := mkobs { o_err : N; o_sets : list (list key); o_snap : list pstatus }.
 
-Definition keys_of (d : list (key * fault)) : list key := map fst d.
 Definition has_read_fault (d : list (key * fault)) : bool :=
   existsb (fun e => match snd e with ReadErr => true | _ => false end) d.
 Definition no_fault (d : list (key * fault)) : bool :=
@@ -253,6 +276,6 @@ Fixpoint model_obs (ds : dest) (uni : list key) (s : state) (ops : list op) : li
   end.
 
 Definition op_keys (o : op) : list key :=
-  match o with Deliver d => keys_of d | ExecOk b | ExecFail b | Release b => b | Restart => [] end.
+  match o with Deliver d => keys_of d | ExecOk b | ExecFail b | Release b => keys_of b | Restart => [] end.
 Definition wf_ops (uni : list key) (ops : list op) : bool :=
   forallb (fun o => forallb (fun k => kmem k uni) (op_keys o)) ops.
